@@ -1769,9 +1769,19 @@ EGLPNUM_TYPENAME_QSLIB_INTERFACE int EGLPNUM_TYPENAME_QSread_and_load_basis (
 	const char *filename)
 {
 	int rval = 0;
+	EGLPNUM_TYPENAME_ILLlp_basis newB;
 
 	rval = check_qsdata_pointer (p);
 	CHECKRVALG (rval, CLEANUP);
+
+	/* read into a temporary so that a failed read leaves the stored basis alone */
+	EGLPNUM_TYPENAME_ILLlp_basis_init (&newB);
+	rval = EGLPNUM_TYPENAME_ILLlib_readbasis (p->lp, &newB, filename);
+	if (rval)
+	{
+		EGLPNUM_TYPENAME_ILLlp_basis_free (&newB);
+		goto CLEANUP;
+	}
 
 	if (p->basis == 0)
 	{
@@ -1782,9 +1792,7 @@ EGLPNUM_TYPENAME_QSLIB_INTERFACE int EGLPNUM_TYPENAME_QSread_and_load_basis (
 	{
 		EGLPNUM_TYPENAME_ILLlp_basis_free (p->basis);
 	}
-
-	rval = EGLPNUM_TYPENAME_ILLlib_readbasis (p->lp, p->basis, filename);
-	CHECKRVALG (rval, CLEANUP);
+	*(p->basis) = newB;
 
 CLEANUP:
 
